@@ -20,8 +20,9 @@ ASSUMPTIONS = ['all C13 assumptions',
                'views are only given nodes of their own document (DOM2 Range and its errata differ on WRONG_DOCUMENT_ERR); Attr nodes are not used as range containers or traversal roots',
                'splitText/normalize with a range boundary inside the affected Text are tagged unspecified (DOM2 Range states no rule; the model follows DOM4, which is what Xerces does)',
                'filters are pure functions of nodeName, so acceptance of a node never changes during a history']
-BUDGET = {'quick': 300, 'thorough': 3500}
+BUDGET = {'quick': 280, 'thorough': 700}
 WALLCAP = {'quick': 500, 'thorough': 3000}
+if os.environ.get('VERIF_DOM_BUDGET'): BUDGET = dict(BUDGET, quick=int(os.environ['VERIF_DOM_BUDGET']))    # development knob (sensitivity runs)
 
 ACTIVE_EXCLUSIONS = {
     # C13 findings (same tree code)
@@ -44,7 +45,7 @@ elif _no: ACTIVE_EXCLUSIONS -= set(_no.split(','))
 
 WALKERS = os.environ.get('VERIF_C14_WALKERS', '0') != '0'
 OPTABLE = dh.expand(dh.CORE_OPS) + dh.expand(dh.VIEW_CORE_OPS) * 2 + (dh.expand(dh.WALKER_OPS) if WALKERS else [])
-MAXOPS = {'quick': 60, 'thorough': 250}
+MAXOPS = {'quick': 60, 'thorough': 200}
 
 def op_strategy():
     v = st.integers(0, 65535)
